@@ -509,7 +509,7 @@ def explore(mod, tier, master, runs_override=None, workers=None, no_selftest=Fal
         'known_finding_runs': {k: v[1] for k, v in known_hits.items()},
         'determinism_selftest': st,
         'components': {'real': 'every module under %s/j1939 (ElectronicControlUnit, J1939_21/22, ControllerApplication, Dm1/Dm22, MemoryAccess, Dm14Query, DM14Server, MessageListener, _async_job_thread in a real parked OS thread)' % REPO,
-                       'stub': 'bus (SimBus), clock (virtual), Queue blocking (SimQueue), thread creation/scheduling (baton), secrets, reference peers, application callbacks'},
+                       'stub': 'bus (SimBus), clock (virtual), Queue blocking (SimQueue, bounded, with the eager-wake schedule fault), Lock (SimLock), thread creation/scheduling (baton; job threads and application calls can be parked at a source line via sys.settrace), secrets, reference peers, application threads and callbacks'},
     }
     stuck = [p for p in getattr(mod, 'REQUIRED_PROBES', []) if not agg['stats'].get(p)]
     if stuck:
